@@ -1,5 +1,6 @@
 """C07 - scheduler-moving operators preserve the source's sequence."""
 from common import *
+import xcheck
 import timedcheck
 
 OPS = [("(delay 5)", 5), ("(delay 0)", 2), ("observe_on", 2), ("(delay_subscription 5)", 5), ("subscribe_on", 2)]
@@ -22,7 +23,8 @@ def run(tier, seed, replay=None):
     if not build_stage(rep):
         return rep.finish()
     cases = load_replay_case(replay) if replay else at_cases() + timedcheck.op_cases(OPS, tier, rng)
-    correspond(rep, "C07", cases, "C07 (relay_ok / passthru_ok on the timed model; remaining for the _at forms)")
+    res = correspond(rep, "C07", cases, "C07 (relay_ok / passthru_ok on the timed model; remaining for the _at forms)")
+    xcheck.cross_check(rep, "C07", cases, res, 40 if tier == "quick" else 400)
     c = rep.coverage
     hist = {}
     for _, _, t in cases:
